@@ -222,6 +222,10 @@ def oracle_a(case):
     except Exception as e:
         return {'violations': [V('export-raised', exc=type(e).__name__, msg=str(e)[:300])],
                 'labels': labels, 'keys': []}
+    if structure(sc) != before:
+        return {'violations': [V('export-changed-the-statechart',
+                                 **(diff_structure(before, structure(sc)) or {}))],
+                'labels': labels, 'keys': []}
     try:
         sc2 = import_from_yaml(text1)
     except Exception as e:
